@@ -1122,3 +1122,59 @@ def g_sample(rng, level=0, n_random=100):
     for _ in range(n_random):
         N = int(rng.integers(1, 5))
         yield {'self': _rand_state(rng, N), 'L': int(rng.integers(0, 6))}
+
+
+def _any_gate(rng, N, direction):
+    """a well-formed gate of a random kind on a random qubit tuple of an N-qubit register (generator / map / both maps / resampled)"""
+    import pyclifford.circuit as ci
+    pa, _ = _pc()
+    if N == 1 or rng.integers(0, 4) == 0:
+        q = tuple(range(N))
+    else:
+        q = _local_qubits(rng, N)
+    g = ci.CliffordGate(*q)
+    kind = int(rng.integers(0, 4))
+    if kind == 0:
+        g.generator = pa.Pauli(bits(rng, 2 * len(q)), int(rng.choice([0, 2])))
+        if rng.integers(0, 2):
+            g.forward_map = _rand_map(rng, len(q))          # ignored: the generator comes first
+    elif kind == 1:
+        m = _rand_map(rng, len(q))
+        if direction == 'forward':
+            g.forward_map = m
+        else:
+            g.backward_map = m
+    elif kind == 2:
+        g.forward_map = _rand_map(rng, len(q))
+        g.backward_map = g.forward_map.inverse()
+    return g
+
+
+def _g_any_gate(direction):
+    def g(rng, level=0, n_random=120):
+        for _ in range(n_random):
+            N = int(rng.integers(1, 5))
+            yield {'self': _any_gate(rng, N, direction), 'obj': _rand_state(rng, N)}
+    return g
+
+
+def _g_any_layer(direction):
+    def g(rng, level=0, n_random=100):
+        import pyclifford.circuit as ci
+        for k in range(n_random):
+            N = int(rng.integers(1, 5))
+            layer = ci.CliffordLayer(*[_any_gate(rng, N, direction) for _ in range(int(rng.integers(0, 4)))])
+            if k % 4 == 0:
+                m = _rand_map(rng, N)
+                if direction == 'forward':
+                    layer.forward_map = m
+                else:
+                    layer.backward_map = m
+            yield {'self': layer, 'obj': _rand_state(rng, N)}
+    return g
+
+
+gen(CI + 'CliffordGate.forward#any_state')(_g_any_gate('forward'))
+gen(CI + 'CliffordGate.backward#any_state')(_g_any_gate('backward'))
+gen(CI + 'CliffordLayer.forward#state')(_g_any_layer('forward'))
+gen(CI + 'CliffordLayer.backward#state')(_g_any_layer('backward'))
